@@ -307,6 +307,10 @@ func c07RandParams(r *Rng, max int, allowPath bool) []C07Param {
 	for i := 0; i < n; i++ {
 		p := C07Param{In: Pick(r, []string{"query", "query", "header", "cookie", "path"}), Name: Pick(r, []string{"a", "b", "id"}), Required: r.Chance(40),
 			State: Pick(r, []string{"valid", "valid", "invalid", "absent"})}
+		if (p.In == "query" || p.In == "cookie") && r.Chance(25) {
+			// query and cookie names are case-sensitive: "A" is another parameter than "a"
+			p.Name = Pick(r, []string{"A", "Id", "B"})
+		}
 		if p.In == "path" {
 			p.Name = "id"
 			if !allowPath {
